@@ -65,6 +65,7 @@ package document
 // (the page number is the constant 1; the bookmark id goes through strings.ReplaceAll and is not specified).
 //@ func (*Document).collectHeadings
 //@ props C15
+//@ appendfacts
 //@ requires d != nil && d.Body != nil && elemsOK(d.Body.Elements)
 //@ modifies nothing
 //@ ensures len(result) == old(tocCount(d.Body.Elements, len(d.Body.Elements), maxLevel))
@@ -89,6 +90,7 @@ package document
 // CreateTOCSDT: a new control of that gallery whose content is the bookmark start and the title paragraph.
 //@ func (*Document).CreateTOCSDT
 //@ props C15
+//@ appendfacts
 //@ modifies nothing
 //@ ensures fresh(result) && tocGallery(result) && result.Content != nil && fresh(result.Content)
 //@ ensures len(result.Content.Elements) == 2 && freshArr(result.Content.Elements) && arr(result.Content.Elements) > 0 && arr(result.Content.Elements) < allocBound()
@@ -104,6 +106,7 @@ package document
 // registry (style.styTOCIds, C13) - a tab and the page number. Everything that was in the control stays in place.
 //@ func (*SDT).AddTOCEntry
 //@ props C15, C13
+//@ appendfacts
 //@ requires sdt != nil && sdt.Content != nil
 //@ ensures len(sdt.Content.Elements) == old(len(sdt.Content.Elements)) + 2
 //@ ensures forall j int :: 0 <= j && j < old(len(sdt.Content.Elements)) ==> sdt.Content.Elements[j] == old(sdt.Content.Elements[j])
@@ -125,6 +128,7 @@ package document
 // FinalizeTOCSDT appends the bookmark end.
 //@ func (*SDT).FinalizeTOCSDT
 //@ props C15
+//@ appendfacts
 //@ requires sdt != nil && sdt.Content != nil
 //@ ensures len(sdt.Content.Elements) == old(len(sdt.Content.Elements)) + 1
 //@ ensures forall j int :: 0 <= j && j < old(len(sdt.Content.Elements)) ==> sdt.Content.Elements[j] == old(sdt.Content.Elements[j])
@@ -173,6 +177,7 @@ package document
 //@ spec tocTitleOK(x any, title string) bool = isPara(x) && len(x.(*Paragraph).Runs) == 1 && x.(*Paragraph).Runs[0].Text.Content == title && x.(*Paragraph).Properties != nil && x.(*Paragraph).Properties.ParagraphStyle == nil
 //@ func (*Document).GenerateTOC
 //@ props C15
+//@ appendfacts
 //@ requires d != nil && d.Body != nil && elemsOK(d.Body.Elements)
 //@ ensures result == nil
 //@ ensures len(d.Body.Elements) == old(len(d.Body.Elements)) + 1
@@ -219,6 +224,7 @@ package document
 // 7f68a84 unstyled paragraphs and tables after the run were removed as well).
 //@ func (*Document).removeTOCEntries
 //@ props C15, C08
+//@ appendfacts
 //@ requires d != nil && d.Body != nil && elemsOK(d.Body.Elements) && 0 <= startIndex && startIndex <= len(d.Body.Elements)
 //@ ensures exists e int :: startIndex <= e && e <= old(len(d.Body.Elements)) && (forall q int :: startIndex <= q && q < e ==> old(isTOCPara(d.Body.Elements[q]))) && (e == old(len(d.Body.Elements)) || !old(isTOCPara(d.Body.Elements[e]))) && len(d.Body.Elements) == old(len(d.Body.Elements)) - (e - startIndex) && (forall j int :: 0 <= j && j < len(d.Body.Elements) ==> d.Body.Elements[j] == old(d.Body.Elements[ite(j < startIndex, j, j + (e - startIndex))]))
 //@ ensures unchangedExcept("Body.Elements", "cell:any")
@@ -236,6 +242,7 @@ package document
 // Word uses, and this path only runs on a document that already has a paragraph with such an id; see the report.)
 //@ func (*Document).addTOCEntry
 //@ props C15
+//@ appendfacts
 //@ requires d != nil && d.Body != nil && config != nil
 //@ ensures result == nil
 //@ ensures len(d.Body.Elements) == old(len(d.Body.Elements)) + 1
@@ -270,6 +277,7 @@ package document
 //     path, because telling "TOC..." ids from heading ids needs the semantics of strings.HasPrefix/ToLower.
 //@ func (*Document).UpdateTOC
 //@ props C15
+//@ appendfacts
 //@ requires d != nil && d.Body != nil && elemsOK(d.Body.Elements) && tocSDTsOK(d.Body.Elements)
 //@ ensures old(tocFirstFrom(d.Body.Elements, 0)) < 0 && old(noTOCPara(d.Body.Elements)) ==> result != nil && unchangedHeap()
 //@ ensures old(tocFirstFrom(d.Body.Elements, 0)) >= 0 || !old(noTOCPara(d.Body.Elements)) ==> result == nil
